@@ -2003,22 +2003,23 @@ class Sim:
                 tt, rk, rid, steps = r
                 self.check_assignable(ft, tt, f"port association {f} in {where}")
                 inst_driver = ('instance', path, label, f)
-                if not steps:
-                    # aliased: the sub entity's own drivers (identified by their instance path) drive `rid`
-                    portmap[fl] = rid
-                else:
-                    hs = self.new_sig(sub_path + f, ft, self.default_value(ft))
-                    portmap[fl] = hs
-                    upd = self.make_update(steps)
-                    sched = self.sched
-                    S = self.S
+                # every output port of an instance is one source of its actual: model it as its own driver
+                # (a child signal + a copy process) so that the driver analysis sees one driver per formal
+                hs = self.new_sig(sub_path + f, ft, self.default_value(ft))
+                portmap[fl] = hs
+                upd = self.make_update(steps)
+                sched = self.sched
+                S = self.S
 
-                    def cpo(hs=hs, rid=rid, upd=upd):
+                def cpo(hs=hs, rid=rid, upd=upd):
+                    if upd is None:
+                        sched[rid] = S[hs]
+                    else:
                         cur = sched[rid] if rid in sched else S[rid]
                         sched[rid] = upd(cur, S[hs])
-                    c2 = Sim.Ctx(where)
-                    c2.writes = dict(wctx.writes)
-                    self.add_proc(f"{where} actual of {f}", cpo, {hs}, c2, inst_driver)
+                c2 = Sim.Ctx(where)
+                c2.writes = dict(wctx.writes)
+                self.add_proc(f"{where} actual of {f}", cpo, {hs}, c2, inst_driver)
                 if mode == 'inout':
                     raise Unsupported("inout port association")
         for fl, p in formals.items():
